@@ -95,6 +95,7 @@ fn handover_exec(case: &(usize, usize, Option<usize>), ctx: &WorkerCtx) -> ExecR
 /// 2-byte mode), and end of stream inside a frame on the read-half path.
 fn recv_big_exec(case: &(usize, usize), ctx: &WorkerCtx) -> ExecResult {
     let (len, mode) = *case;
+    if mode >= 2 { return readhalf_more_exec(len, mode, ctx); }
     run_rt(async move {
         let mut res = ExecResult::default();
         let mut cw = match conn_world(ctx, flags_default(), flags_default()).await { Ok(x) => x, Err(e) => { res.violations.push(("could not establish the connection under a conforming peer".into(), json!({"error": e}))); return res; } };
@@ -144,6 +145,75 @@ fn recv_big_exec(case: &(usize, usize), ctx: &WorkerCtx) -> ExecResult {
     })
 }
 
+/// More of the read-half path: (mode 2) a refused frame of `len` bytes followed by valid frames - the stream stays in step;
+/// (mode 3) a pause longer than the timeout inside a frame body - the call ends in an error or delivers the very message,
+/// never anything else; (mode 4) the read half is handed out, the connection closed and connected again - the second
+/// handshake is read with handshake framing.
+fn readhalf_more_exec(len: usize, mode: usize, ctx: &WorkerCtx) -> ExecResult {
+    run_rt(async move {
+        let mut res = ExecResult::default();
+        let mut cw = match conn_world(ctx, flags_default(), flags_default()).await { Ok(x) => x, Err(e) => { res.violations.push(("could not establish the connection under a conforming peer".into(), json!({"error": e}))); return res; } };
+        cw.w.gates.set_active(&[]);
+        let to = vcore::refval::RefVal::Pid { node: "me@127.0.0.1".into(), id: 1, serial: 0, creation: 1 };
+        let msg = |k: i64| crate::procs::send_to(&to, vcore::refval::RefVal::Tuple(vec![vcore::refval::RefVal::atom("m"), vcore::refval::RefVal::int(k)]));
+        if mode == 4 {
+            let mut conn = cw.conn;
+            let rh = conn.take_read_half();
+            let _ = conn.close().await;
+            drop(rh);
+            let h = tokio::spawn(async move { let r = conn.connect().await; (conn, r) });
+            let ok = match cw.w.accept_peer().await {
+                Some(mut p2) => { let hs = cw.w.peer_handshake(&mut p2, flags_default()).await; let mut h = h; for _ in 0..20_000 { cw.w.yield_once().await; if h.is_finished() { break; } } hs.is_ok() && h.is_finished() && matches!((&mut h).await, Ok((_, Ok(())))) }
+                None => false,
+            };
+            if !ok { res.violations.push(("a connection whose read half had been handed out cannot be connected again after close()".into(), json!({}))); }
+            res.outcome = "reconnect after hand-over".into();
+            return res;
+        }
+        let got: Arc<Mutex<Vec<Result<String, String>>>> = Arc::new(Mutex::new(vec![]));
+        let g2 = got.clone();
+        let mut conn = cw.conn;
+        let timeout = if mode == 3 { std::time::Duration::from_secs(5) } else { std::time::Duration::from_secs(1000) };
+        tokio::spawn(async move {
+            let mut rh = conn.take_read_half().expect("read half");
+            loop {
+                let r = edp_client::Connection::receive_message_from_read_half(&mut rh, timeout).await;
+                let fatal = matches!(&r, Err(e) if e.is_connection_closed() || e.is_timeout() || matches!(e, edp_client::Error::Io(_) | edp_client::Error::MessageTooLarge { .. }));
+                g2.lock().unwrap().push(r.map(|(_, p)| p.map(|t| format!("{}", crate::denote::denote(&t))).unwrap_or_default()).map_err(|e| e.to_string()));
+                if fatal || g2.lock().unwrap().len() > 8 { break; }
+            }
+            drop(conn);
+        });
+        let probe = { let g = got.clone(); move || g.lock().unwrap().len() as u64 };
+        let want = |k: i64| format!("{}", vcore::refval::RefVal::Tuple(vec![vcore::refval::RefVal::atom("m"), vcore::refval::RefVal::int(k)]));
+        if mode == 2 {
+            let mut junk = vec![131u8, 68, 0];
+            junk.resize(len.max(3), 0x61);
+            cw.peer.send(&msg(1)); cw.peer.send(&frame(&junk, 4)); cw.peer.send(&msg(2)); cw.peer.send(&msg(3));
+            cw.w.settle(&mut cw.peer, &probe).await;
+            let all = got.lock().unwrap().clone();
+            let shape_ok = all.len() == 4 && all[0] == Ok(want(1)) && all[1].is_err() && all[2] == Ok(want(2)) && all[3] == Ok(want(3));
+            if !shape_ok { res.violations.push(("a refused frame on the read-half path takes later frames with it".into(), json!({"refused_frame_length": len, "results": format!("{:?}", all)}))); }
+        } else {
+            let f = msg(1);
+            let cut = 4 + (f.len() - 4) / 2;
+            cw.peer.send(&f[..cut]);
+            cw.w.settle(&mut cw.peer, &probe).await;
+            tokio::time::advance(std::time::Duration::from_secs(7)).await; // longer than the 5 s timeout, inside the body
+            cw.w.settle(&mut cw.peer, &probe).await;
+            cw.peer.send(&f[cut..]); cw.peer.send(&msg(2));
+            cw.w.settle(&mut cw.peer, &probe).await;
+            let all = got.lock().unwrap().clone();
+            // either the call gave up with an error (and the loop ended), or it delivered exactly what was sent
+            let ok = (all.len() == 1 && all[0].is_err()) || all == vec![Ok(want(1)), Ok(want(2))];
+            if !ok { res.violations.push(("a pause inside a frame body ends in something other than an error or the message itself".into(), json!({"results": format!("{:?}", all)}))); }
+        }
+        res.steps = 3;
+        res.outcome = format!("read half mode {} len {}", mode, len);
+        res
+    })
+}
+
 /// The writing side over a socket: `send_raw` for a sequence of messages; the peer's bytes must be exactly the one-shot framing.
 fn send_raw_exec(lens: &Vec<usize>, ctx: &WorkerCtx) -> ExecResult {
     let lens = lens.clone();
@@ -188,7 +258,7 @@ pub fn run(rep: &Report) -> Value {
     let st_h: Stats = for_all(rep, "frames coalesced with the handshake acknowledgement", &hand, |c, ctx| handover_exec(c, ctx));
     let wlens: Vec<Vec<usize>> = vec![vec![0, 1, 2, 0, 255, 256], vec![65_535, 65_536, 65_537, 3], vec![200_000, 0, 1 << 20, 5], vec![70_000, 70_001]];
     let st_w: Stats = for_all(rep, "send_raw against the one-shot framing", &wlens, |c, ctx| send_raw_exec(c, ctx));
-    let big: Vec<(usize, usize)> = vec![(65_535, 0), (65_536, 0), (65_537, 0), (200_000, 0), (1 << 20, 0), (4, 1), (50, 1), (70_000, 1)];
+    let big: Vec<(usize, usize)> = vec![(65_535, 0), (65_536, 0), (65_537, 0), (200_000, 0), (1 << 20, 0), (4, 1), (50, 1), (70_000, 1), (3, 2), (8, 2), (300, 2), (70_000, 2), (0, 3), (0, 4)];
     let st_b: Stats = for_all(rep, "large frames after the handshake; end of stream inside a frame on the read half", &big, |c, ctx| recv_big_exec(c, ctx));
     json!({
         "large_frame_executions": st_b.executions,
@@ -199,6 +269,6 @@ pub fn run(rep: &Report) -> Value {
         "exhaustive": true,
         "distinct_outcomes": st.distinct_outcomes,
         "unstable_failures_not_reported": st.unstable,
-        "rule": "the connection's socket-backed framed reader (receive_raw) fed 7 short frame sequences (ticks, 1..5-byte messages) under every single cut and every pair of cuts of the byte stream (pairs thinned to a third for streams longer than 10 bytes in quick), the peer settling between chunks, then a truncated frame followed by close; plus 8 executions in which the peer's first 0, 1, 2 or 5 frames and half of one more share a TCP segment with the handshake acknowledgement and are read through receive_raw or through the read half handed over by take_read_half, and 194 in which a two-frame stream is divided at every byte position between the acknowledgement's segment and a later one; and four send_raw sequences with message lengths 0..2^20 (around 255/256 and 65535/65536/65537) whose bytes on the wire must equal the one-shot framing; five frames of 65535..2^20 bytes read through receive_raw after the handshake, and three truncated frames followed by close on the read-half path",
+        "rule": "the connection's socket-backed framed reader (receive_raw) fed 7 short frame sequences (ticks, 1..5-byte messages) under every single cut and every pair of cuts of the byte stream (pairs thinned to a third for streams longer than 10 bytes in quick), the peer settling between chunks, then a truncated frame followed by close; plus 8 executions in which the peer's first 0, 1, 2 or 5 frames and half of one more share a TCP segment with the handshake acknowledgement and are read through receive_raw or through the read half handed over by take_read_half, and 194 in which a two-frame stream is divided at every byte position between the acknowledgement's segment and a later one; and four send_raw sequences with message lengths 0..2^20 (around 255/256 and 65535/65536/65537) whose bytes on the wire must equal the one-shot framing; five frames of 65535..2^20 bytes read through receive_raw after the handshake, three truncated frames followed by close on the read-half path, four refused frames (3..70 000 bytes) between valid ones on that path, a pause longer than the timeout inside a body, and a reconnect after the read half had been handed out",
     })
 }
